@@ -65,7 +65,7 @@ def roots(prog, crates=LIB):
         for b in prog.by_crate[c]:
             if b.kind != "fn" or b.d.get("in_test"):
                 continue
-            if b.d["vis"] == "pub" or b.d["impl_trait"] is not None:
+            if b.d.get("exported"):
                 out.append(b.key)
     return out
 
